@@ -2,9 +2,12 @@ package props
 
 import (
 	"bytes"
+	"context"
 	"errors"
 	"fmt"
+	"io"
 	"math"
+	"os"
 	"unsafe"
 
 	"github.com/willabides/rjson"
@@ -256,7 +259,11 @@ func handlerProps(r *eng.Run, id string) {
 			}
 			docTexts++
 			n := 0
-			traverse(kind, w, nil, func(int, []byte) answer { n++; return answer{} })
+			eng.Beat(w)
+			if pan := guard(func() { traverse(kind, w, nil, func(int, []byte) answer { n++; return answer{} }) }); pan != "" {
+				r.Violation(eng.Replay{Engine: "handler", Entry: entryOf(kind), Sig: "panic/doc/" + shortSig(w), InputB64: w, Choices: []int{0, 0, 0, 0, 0, 0, 0, 0}, Expected: "returns normally", Got: "panic: " + pan, Extra: map[string]interface{}{"kind": string(kind)}})
+				return
+			}
 			switch id {
 			case "C07":
 				st := eng.ExploreChoices(func(c *eng.Chooser) {
@@ -279,6 +286,10 @@ func handlerProps(r *eng.Run, id string) {
 		}
 		for _, t := range ds.BySize[3] {
 			eng.Corruptions(t, corruptAlpha, func(s string) { run(s) })
+		}
+		// every push site of the machines at every stack size up to 70 levels
+		for _, t := range depthSiteFamily(70) {
+			run(string(t))
 		}
 	}
 	execs += docExecs
@@ -317,7 +328,9 @@ func errorVariants(sentinel error) []error {
 	var tn *typedNilErr
 	_, libErr := rjson.SkipValue([]byte(`[1,[2,3`), nil)
 	_, libErr2 := rjson.SkipValue([]byte(`{"a":}`), nil)
-	return []error{sentinel, tn, libErr, libErr2, sliceErr{1, 2}}
+	// well-known sentinels of the standard library (a handler that reads from a stream returns
+	// these) and a wrapped one
+	return []error{sentinel, tn, libErr, libErr2, sliceErr{1, 2}, io.EOF, io.ErrUnexpectedEOF, context.Canceled, os.ErrNotExist, fmt.Errorf("wrapped: %w", io.EOF)}
 }
 
 // c09Full decides whether the full matrix (all offsets, both base strategies, all error kinds) runs
